@@ -15,7 +15,7 @@ func main() {
 	o := common.ParseFlags()
 	out := common.NewOut(o.Out)
 	defer out.Finish()
-	out.Rule = "histories: (policy,value type) over all host-admitted combos; 1-4 blocks of 0-12 host calls over keys {a,a1,ab,b,b1,abc} (+reserved/empty/0xFF keys rarely), ordinals 0..5 non-monotone with repeats, delete_prefix mixed in; after every block all six readers for every key x ordinal 0..max+1; non-trivial = some key written twice / deleted after written / two ops share an ordinal; distinct by history line"
+	out.Rule = "histories: (policy,value type) over all host-admitted combos; 1-4 blocks (one in three on a store just saved and loaded back) of 0-12 host calls over keys {a,a1,ab,b,b1,abc} (+reserved/empty/0xFF keys rarely), ordinals 0..5 non-monotone with repeats, delete_prefix mixed in; after every block all six readers for every key x ordinal 0..max+1; non-trivial = some key written twice / deleted after written / two ops share an ordinal; distinct by history line"
 	ctx := storeh.NewCtx()
 	dir := filepath.Join(o.Out, "dstore")
 	run := func(line string, nt bool) {
@@ -54,6 +54,12 @@ func main() {
 		var steps []string
 		var blocks [][]storeh.Op
 		for b := 0; b < rng.Range(1, 4); b++ {
+			// one block in three runs on a store that has just been saved and loaded back (its keys and values then
+			// alias the snapshot file's buffer)
+			if b > 0 && rng.Chance(1, 3) {
+				steps = append(steps, "sl "+store)
+				out.Count("save-load-between-blocks")
+			}
 			ops := g.Block(12, maxOrd)
 			blocks = append(blocks, ops)
 			steps = append(steps, fmt.Sprintf("blk %s %s", store, storeh.ShowOps(ops)))
